@@ -9,6 +9,15 @@ TRUST = ("rustc's MIR construction, trait resolution and const evaluation (night
          "necessary conditions only: a tree can satisfy every rule and still compute a wrong value.")
 
 CLAIMED = {
+ "C09": dict(technique="data check of the shipped unit table against an independent reference + rational-function shape analysis of the conversion formula on MIR + guard dominance + argument lineage",
+             text="Decides: units.toml (and the constants compiled from it) agree with the international unit definitions; convert_f64 is the affine formula with from/to in the right roles as a rational function; range ends are both converted; conversion is dominated by the same-quantity test and convert_impl fails before mutating; best units come from the designated list of the requested system. Threshold selection, float tolerance and fraction bookkeeping are not decided.",
+             ref="DESIGN.md §5 C09"),
+ "C15": dict(technique="serde derive/attribute symmetry lint over the compiler-resolved type-reachability closure of Recipe (attributes read with syn)",
+             text="Decides that no type reachable from a recipe uses a serde construct known to break JSON round trips (derive pairing, one-sided attributes, skip/skip_serializing_if without default, internal tagging over non-map variants, flatten collisions, untagged ambiguity, duplicate names, non-string map keys, nested Options, borrowed strings, manual impls). Necessary conditions of round-trip equality; serde_json's own behaviour is trusted.",
+             ref="DESIGN.md §5 C15"),
+ "C16": dict(technique="C03 inventories restricted to the builder's call-graph reach + insert-result usage + path-sensitive guard reachability + data consistency check of units.toml + build.rs key agreement",
+             text="Partial: decides that the builder's explicit failure sites / arithmetic / loops are the reviewed ones, that every index insertion is duplicate-checked or a reviewed override, that empty best lists cannot reach the store, that the shipped units file is collision-free and self-consistent, and that build.rs reads every key the file uses. Layer precedence semantics and threshold order are not decided.",
+             ref="DESIGN.md §5 C16"),
  "C02": dict(technique="gate-dominance analysis on MIR (edge dominators, bool::then closures, call-site propagation) + confinement inventory of Extensions reads + argument lineage + const-evaluated bit layout",
              text="Decides four structural necessary conditions of extension independence: each construct that implements an extension's special reading is dominated by the flag-set outcome of a test of its own flag; the control-relevant reads of an Extensions value are exactly the reviewed gate sites; the extension set handed to sub-parsers and the analysis is the configured one; flag bits are disjoint as documented. It does not decide that gated code is a no-op on core syntax (a parse result).",
              ref="DESIGN.md §5 C02"),
